@@ -124,6 +124,12 @@ pub fn make_scenario(base: &Path, seed: u64, idx: usize) -> Scenario {
     for (rel, bytes) in &files {
         write_file(&origin.join(rel), bytes);
     }
+    // a dependency whose own tree contains a file called `.forc_index` (nothing forbids it): the completeness marker
+    // forc writes last then already exists early in the checkout
+    if !small && (idx % 4 == 1 || rng.chance(1, 10)) {
+        files.insert(".forc_index".into(), b"{}\n".to_vec());
+        write_file(&origin.join(".forc_index"), b"{}\n");
+    }
     // an executable file and a symbolic link: libgit2 then also issues chmod / symlink calls during checkout
     let mut extra_descr = vec![];
     if !small && rng.chance(1, 2) {
@@ -227,6 +233,9 @@ pub struct RunCfg {
 pub struct Trial {
     pub name: String,
     pub runs: Vec<RunCfg>,
+    /// Forc.lock present in the consumer before the first run (a project cloned with its committed lock file
+    /// onto a machine with an empty forc cache): the dependency is then resolved from the lock, not pinned
+    pub prelock: Option<String>,
 }
 
 #[derive(Clone, Debug, Default)]
@@ -237,6 +246,7 @@ pub struct TrialResult {
     pub outcomes: Vec<String>,
     pub logs: Vec<ShimLog>,
     pub stderrs: Vec<String>,
+    pub lock_text: Option<String>,
 }
 
 fn spec_for(scn: &Scenario, home: &Path, cons: &Path, run: &RunCfg, log: Option<&Path>) -> Spec {
@@ -317,6 +327,9 @@ fn judge_one(commit: &str, reference: &BTreeMap<String, Vec<u8>>, home: &Path, c
     let tree = read_tree(dir);
     let mut problems = vec![];
     for (rel, bytes) in reference {
+        if rel == ".forc_index" {
+            continue; // forc overwrites a file of this name with its own index at the end of the fetch
+        }
         match tree.get(rel) {
             None => problems.push(format!("missing {rel}")),
             Some(b) if b != bytes => {
@@ -359,6 +372,9 @@ pub fn run_trial(scn: &Scenario, trial: &Trial, slot: &Path, keep_logs: bool) ->
     std::fs::create_dir_all(&home).unwrap();
     write_file(&cons.join("Forc.toml"), scn.cons_toml.as_bytes());
     write_file(&cons.join("src/lib.sw"), scn.cons_lib.as_bytes());
+    if let Some(l) = &trial.prelock {
+        write_file(&cons.join("Forc.lock"), l.as_bytes());
+    }
     let mut res = TrialResult::default();
     let n = trial.runs.len();
     for (i, run) in trial.runs.iter().enumerate() {
@@ -396,6 +412,9 @@ pub fn run_trial(scn: &Scenario, trial: &Trial, slot: &Path, keep_logs: bool) ->
             continue;
         }
         if o.code == Some(0) {
+            if keep_logs {
+                res.lock_text = std::fs::read_to_string(cons.join("Forc.lock")).ok();
+            }
             if let Some(v) = judge_tree(scn, &home, &cons) {
                 res.violation = Some(v);
                 return res;
@@ -483,7 +502,7 @@ pub fn main(cli: &Cli) -> i32 {
         // recording runs (fault-free) in both gate modes, twice each: determinism of the event sequence
         let mut recs: BTreeMap<&str, ShimLog> = BTreeMap::new();
         for gate in ["M", "MR"] {
-            let t = Trial { name: "record".into(), runs: vec![RunCfg { plan: String::new(), gate: gate.into(), clock: clock0 }] };
+            let t = Trial { name: "record".into(), runs: vec![RunCfg { plan: String::new(), gate: gate.into(), clock: clock0 }], prelock: None };
             let r1 = run_trial(&scn, &t, &base.join(format!("rec-{si}-{gate}-a")), true);
             let r2 = run_trial(&scn, &t, &base.join(format!("rec-{si}-{gate}-b")), true);
             if let Some((c, d)) = &r1.violation {
@@ -501,6 +520,20 @@ pub fn main(cli: &Cli) -> i32 {
             other_thread_calls += r1.logs[0].other_thread;
             recs.insert(gate, r1.logs.into_iter().next().unwrap());
         }
+        // the lock file a never-faulted build leaves behind, and the event sequence of a build that starts from it
+        // with an empty cache (no pin step: the commit comes from the lock)
+        let lock_text = {
+            let t = Trial { name: "record-lock".into(), runs: vec![RunCfg { plan: String::new(), gate: "M".into(), clock: clock0 }], prelock: None };
+            run_trial(&scn, &t, &base.join(format!("rec-{si}-lock")), true).lock_text
+        };
+        let rec_locked = lock_text.as_ref().map(|l| {
+            let t = Trial { name: "record-prelocked".into(), runs: vec![RunCfg { plan: String::new(), gate: "M".into(), clock: clock0 }], prelock: Some(l.clone()) };
+            let r = run_trial(&scn, &t, &base.join(format!("rec-{si}-prelocked")), true);
+            if let Some((c, d)) = &r.violation {
+                harness_error(&format!("C30: the fault-free build of scenario {si} from a committed Forc.lock fails ({c}: {})", strip_ansi(d)));
+            }
+            r.logs.into_iter().next().unwrap()
+        });
         let rec_m = &recs["M"];
         let rec_mr = &recs["MR"];
         scn_descr.push(json!({"scenario": scn.descr, "mutating_events": rec_m.events.len(), "all_events": rec_mr.events.len()}));
@@ -508,19 +541,42 @@ pub fn main(cli: &Cli) -> i32 {
         let mut planned: Vec<Planned> = vec![];
         for e in &rec_m.events {
             planned.push(Planned {
-                trial: Trial { name: format!("K{}", e.k), runs: vec![RunCfg { plan: format!("{}:K", e.k), gate: "M".into(), clock: clock0 }, RunCfg { plan: String::new(), gate: "M".into(), clock: clock0 }] },
+                trial: Trial { name: format!("K{}", e.k), runs: vec![RunCfg { plan: format!("{}:K", e.k), gate: "M".into(), clock: clock0 }, RunCfg { plan: String::new(), gate: "M".into(), clock: clock0 }], prelock: None },
                 sig: vec![format!("KILL@{}:{}", e.call, site_of(e))],
                 exhaustive_part: true,
             });
             if (e.call == "write" || e.call == "pwrite" || e.call == "writev") && e.len >= 2 {
                 planned.push(Planned {
-                    trial: Trial { name: format!("T{}", e.k), runs: vec![RunCfg { plan: format!("{}:T:{}", e.k, e.len / 2), gate: "M".into(), clock: clock0 }, RunCfg { plan: String::new(), gate: "M".into(), clock: clock0 }] },
+                    trial: Trial { name: format!("T{}", e.k), runs: vec![RunCfg { plan: format!("{}:T:{}", e.k, e.len / 2), gate: "M".into(), clock: clock0 }, RunCfg { plan: String::new(), gate: "M".into(), clock: clock0 }], prelock: None },
                     sig: vec![format!("TORN@{}:{}", e.call, site_of(e))],
                     exhaustive_part: true,
                 });
             }
         }
+        // the same enumeration of KILL points for the build that starts from a committed Forc.lock
+        if let (Some(l), Some(rl)) = (&lock_text, &rec_locked) {
+            for e in &rl.events {
+                planned.push(Planned {
+                    trial: Trial { name: format!("LK{}", e.k), runs: vec![RunCfg { plan: format!("{}:K", e.k), gate: "M".into(), clock: clock0 }, RunCfg { plan: String::new(), gate: "M".into(), clock: clock0 }], prelock: Some(l.clone()) },
+                    sig: vec![format!("KILL@{}:{}", e.call, site_of(e)), "prelocked".into()],
+                    exhaustive_part: true,
+                });
+            }
+        }
         crash_points_total += planned.len();
+        // persistent failures: from one event on, every call fails for a while (a full disk, a dying device)
+        {
+            let mut rng = Rng::new(derive(cli.seed, "c30-persistent", si as u64));
+            for _ in 0..(n_sampled / n_scn.max(1) / 4 + 2) {
+                let e = rng.pick(&rec_m.events).clone();
+                let errno = *rng.pick(&[libc::ENOSPC, libc::EIO, libc::EACCES]);
+                planned.push(Planned {
+                    trial: Trial { name: format!("E{}e{}", e.k, errno), runs: vec![RunCfg { plan: format!("{}:E:{}", e.k, errno), gate: "M".into(), clock: clock0 }, RunCfg { plan: String::new(), gate: "M".into(), clock: clock0 }], prelock: None },
+                    sig: vec![format!("PERSISTENT-ERRNO{}@{}:{}", errno, e.call, site_of(&e))],
+                    exhaustive_part: false,
+                });
+            }
+        }
         // ---- plan: sampled part (errno, short writes, two-fault sequences, restart with another clock)
         let mut rng = Rng::new(derive(cli.seed, "c30-sampled", si as u64));
         let per_scn = n_sampled / n_scn.max(1) + 1;
@@ -535,7 +591,7 @@ pub fn main(cli: &Cli) -> i32 {
                         continue;
                     }
                     planned.push(Planned {
-                        trial: Trial { name: format!("F{}e{}", e.k, errno), runs: vec![RunCfg { plan: format!("{}:F:{}", e.k, errno), gate: "MR".into(), clock: clock0 }, RunCfg { plan: String::new(), gate: "M".into(), clock: clock_b }] },
+                        trial: Trial { name: format!("F{}e{}", e.k, errno), runs: vec![RunCfg { plan: format!("{}:F:{}", e.k, errno), gate: "MR".into(), clock: clock0 }, RunCfg { plan: String::new(), gate: "M".into(), clock: clock_b }], prelock: None },
                         sig: vec![format!("ERRNO{}@{}:{}", errno, e.call, site_of(&e))],
                         exhaustive_part: false,
                     });
@@ -548,7 +604,7 @@ pub fn main(cli: &Cli) -> i32 {
                     let e = (*rng.pick(&ws)).clone();
                     let n = rng.range(1, e.len - 1);
                     planned.push(Planned {
-                        trial: Trial { name: format!("S{}n{}", e.k, n), runs: vec![RunCfg { plan: format!("{}:S:{}", e.k, n), gate: "M".into(), clock: clock0 }, RunCfg { plan: String::new(), gate: "M".into(), clock: clock_b }] },
+                        trial: Trial { name: format!("S{}n{}", e.k, n), runs: vec![RunCfg { plan: format!("{}:S:{}", e.k, n), gate: "M".into(), clock: clock0 }, RunCfg { plan: String::new(), gate: "M".into(), clock: clock_b }], prelock: None },
                         sig: vec![format!("SHORT@{}:{}", e.call, site_of(&e))],
                         exhaustive_part: false,
                     });
@@ -565,6 +621,7 @@ pub fn main(cli: &Cli) -> i32 {
                                 RunCfg { plan: format!("{k2}:K"), gate: "M".into(), clock: clock_b },
                                 RunCfg { plan: String::new(), gate: "M".into(), clock: if rng.chance(1, 2) { clock_b } else { base_clock(&scn, 1000 + j as u64) } },
                             ],
+                            prelock: None,
                         },
                         sig: vec![format!("KILL@{}:{}", e1.call, site_of(&e1)), "KILL@second-run".into()],
                         exhaustive_part: false,
@@ -620,7 +677,7 @@ pub fn main(cli: &Cli) -> i32 {
                     clause: clause.clone(),
                     detail: detail.clone(),
                     signature: minimal.1.clone(),
-                    replay: json!({"scenario": scn.descr, "trial": minimal.0.name, "runs": minimal.0.runs.iter().map(|r| json!({"plan": r.plan, "gate": r.gate, "clock": r.clock})).collect::<Vec<_>>(),
+                    replay: json!({"scenario": scn.descr, "trial": minimal.0.name, "prelock": minimal.0.prelock, "runs": minimal.0.runs.iter().map(|r| json!({"plan": r.plan, "gate": r.gate, "clock": r.clock})).collect::<Vec<_>>(),
                         "events_at_fault": fault_events(&recs, &minimal.0)}),
                 };
                 // confirm in a fresh slot before reporting
@@ -705,7 +762,7 @@ fn replay(path: &str, base: &Path) -> i32 {
     let idx = v["scenario"]["scenario_idx"].as_u64().unwrap_or(0) as usize;
     let scn = make_scenario(base, seed, idx);
     let runs: Vec<RunCfg> = v["runs"].as_array().cloned().unwrap_or_default().iter().map(|r| RunCfg { plan: r["plan"].as_str().unwrap_or("").into(), gate: r["gate"].as_str().unwrap_or("M").into(), clock: r["clock"].as_i64().unwrap_or(0) }).collect();
-    let t = Trial { name: "replay".into(), runs };
+    let t = Trial { name: "replay".into(), runs, prelock: v["prelock"].as_str().map(String::from) };
     let r = run_trial(&scn, &t, &base.join("replay"), true);
     for (i, e) in r.stderrs.iter().enumerate() {
         println!("---- output of run {i}:\n{e}");
